@@ -48,6 +48,24 @@ def _known_ok(a, b):
     return b.value == exp and (a.value is None or a.value == b.value)
 
 
+def _first_type_difference(a, b, path="msg"):
+    import dataclasses
+
+    if type(a) is not type(b):
+        return f"{path}: {type(a).__name__} vs {type(b).__name__}"
+    if dataclasses.is_dataclass(a):
+        for f in dataclasses.fields(a):
+            d = _first_type_difference(getattr(a, f.name), getattr(b, f.name), path + "." + f.name)
+            if d:
+                return d
+    elif isinstance(a, (list, tuple)):
+        for i, (x, y) in enumerate(zip(a, b)):
+            d = _first_type_difference(x, y, f"{path}[{i}]")
+            if d:
+                return d
+    return ""
+
+
 def _path_bucket(p: str) -> str:
     return re.sub(r"\[[^\]]*\]", "[]", p.split(":")[0])
 
@@ -114,6 +132,14 @@ def check_one(m_abs, trailer: bytes, shared_options: bool = False, enc=None):
     d = av.same(m, m2, op, _known_ok)
     if d:
         out.append((f"diff:{_path_bucket(d)}", f"decoded message differs at {d}"))
+    elif not any(c[0] in av.KNOWN_OIDS for c in m_abs[3]):
+        # "equal to the original": the library's own equality must say so too (no control of a library-known type here,
+        # whose decoded form legitimately carries the raw value octets in addition)
+        try:
+            if not (m2 == m) or (m2 != m):
+                out.append((f"library-equality:{op}", "decoded message has the same fields as the original but == says they differ (field container types?) : " + _first_type_difference(m, m2)))
+        except Exception as e:
+            out.append((f"library-equality-exc:{op}", f"{type(e).__name__}: {e}"))
     try:
         a1, a2 = av.abstract(m), av.abstract(m2)
         if a1 != a2 and not d:
